@@ -11,6 +11,7 @@
 //!               default_successor()
 //!   op sequence `N<k0>,<op>,...`  op = `T<k>:<a>-<b>:<k'>` add_transition | `D<k>:<k'>`
 //!               set_default_successor | `F<k>` mark_final | `B` build() called here, result dropped
+//!               | `U` build_unchecked() called here, result (or panic) dropped
 //!   table       `size|alpha|[e00,e01,..];[e10,..];...`   size(), alphabet_size(), rows of eval(s,c)
 //!   ctb script  `-` or `;`-joined `D<i>:<d>` / `S<i>:[c>v,...]`
 //!   partition   `[a-b,...]|w`        edges `[I0>3,C>4]`
@@ -28,11 +29,12 @@ use aws_smt_strings::smt_strings::{SmtString, MAX_CHAR};
 use aws_smt_strings::verif_hooks::{CompactTable, CompactTableBuilder};
 
 #[derive(Clone, Debug)]
-enum Op {
+pub enum Op {
     T(u32, u32, u32, u32), // key, a, b, key'
     D(u32, u32),
     F(u32),
     B,
+    U,
 }
 
 fn op_str(o: &Op) -> String {
@@ -41,10 +43,11 @@ fn op_str(o: &Op) -> String {
         Op::D(k, k2) => format!("D{}:{}", k, k2),
         Op::F(k) => format!("F{}", k),
         Op::B => "B".into(),
+        Op::U => "U".into(),
     }
 }
 
-fn seq_str(k0: u32, ops: &[Op]) -> String {
+pub fn seq_str(k0: u32, ops: &[Op]) -> String {
     let mut s = format!("N{}", k0);
     for o in ops {
         s.push(',');
@@ -70,13 +73,13 @@ fn key_order(k0: u32, ops: &[Op]) -> Vec<u32> {
                 add(*k2, &mut v);
             }
             Op::F(k) => add(*k, &mut v),
-            Op::B => {}
+            Op::B | Op::U => {}
         }
     }
     v
 }
 
-fn mk_builder(k0: u32, ops: &[Op]) -> AutomatonBuilder<u32> {
+pub fn mk_builder(k0: u32, ops: &[Op]) -> AutomatonBuilder<u32> {
     let mut b = AutomatonBuilder::new(&k0);
     for o in ops {
         match o {
@@ -91,6 +94,12 @@ fn mk_builder(k0: u32, ops: &[Op]) -> AutomatonBuilder<u32> {
             }
             Op::B => {
                 let _ = b.build();
+            }
+            Op::U => {
+                // build_unchecked may panic (overlapping labels): the call sequence goes on
+                let _ = std::panic::catch_unwind(std::panic::AssertUnwindSafe(|| {
+                    let _ = b.build_unchecked();
+                }));
             }
         }
     }
@@ -303,7 +312,7 @@ fn observe(t: &mut Trace, rng: &mut Rng, a: &mut Automaton, full: bool, depth: u
 
 fn run_seq(t: &mut Trace, rng: &mut Rng, k0: u32, ops: &[Op]) {
     let ss = seq_str(k0, ops);
-    let has_b = ops.iter().any(|o| matches!(o, Op::B));
+    let has_b = ops.iter().any(|o| matches!(o, Op::B | Op::U));
     // build
     let mut built: Option<Automaton> = None;
     let r = guarded(|| match mk_builder(k0, ops).build() {
@@ -349,10 +358,10 @@ fn run_seq(t: &mut Trace, rng: &mut Rng, k0: u32, ops: &[Op]) {
 
 // ---------- generators ----------
 
-const CUTS: [u32; 14] = [0, 1, 2, 47, 48, 57, 58, 97, 98, 99, 100, 122, MAX_CHAR - 1, MAX_CHAR];
+pub const CUTS: [u32; 14] = [0, 1, 2, 47, 48, 57, 58, 97, 98, 99, 100, 122, MAX_CHAR - 1, MAX_CHAR];
 
 /// a random chain of consecutive intervals covering [0, MAX_CHAR]
-fn tiling(rng: &mut Rng) -> Vec<(u32, u32)> {
+pub fn tiling(rng: &mut Rng) -> Vec<(u32, u32)> {
     let mut cuts: Vec<u32> = Vec::new(); // interval starts (other than 0)
     let k = rng.range(0, 5);
     for _ in 0..k {
@@ -374,21 +383,21 @@ fn tiling(rng: &mut Rng) -> Vec<(u32, u32)> {
 }
 
 #[derive(Clone, Copy, PartialEq)]
-enum Shape {
+pub enum Shape {
     Valid,
     Perturbed,
     Overlap,
     Random,
 }
 
-fn shuffle<T>(rng: &mut Rng, v: &mut Vec<T>) {
+pub fn shuffle<T>(rng: &mut Rng, v: &mut Vec<T>) {
     for i in (1..v.len()).rev() {
         let j = rng.below(i as u64 + 1) as usize;
         v.swap(i, j);
     }
 }
 
-fn gen_seq(rng: &mut Rng, shape: Shape) -> (u32, Vec<Op>) {
+pub fn gen_seq(rng: &mut Rng, shape: Shape) -> (u32, Vec<Op>) {
     const KEYS: [u32; 8] = [0, 1, 2, 3, 5, 8, 13, 7];
     let n = rng.range(1, 5) as usize;
     let mut pool: Vec<u32> = KEYS.to_vec();
@@ -508,6 +517,12 @@ fn gen_seq(rng: &mut Rng, shape: Shape) -> (u32, Vec<Op>) {
         let pos = rng.below(ops.len() as u64 + 1) as usize;
         ops.insert(pos, Op::B);
     }
+    if rng.chance(1, 5) {
+        // an intermediate build_unchecked(): at the very end (right before the final build) half
+        // of the time, otherwise anywhere
+        let pos = if rng.chance(1, 2) { ops.len() } else { rng.below(ops.len() as u64 + 1) as usize };
+        ops.insert(pos, Op::U);
+    }
     (k0, ops)
 }
 
@@ -576,7 +591,7 @@ fn run_ctb(t: &mut Trace, rng: &mut Rng) {
 }
 
 pub fn run(t: &mut Trace, rng: &mut Rng, thorough: bool) {
-    t.rule = "builder call sequences over 1..5 keys with labels over 14 boundary cut points: (valid) per state a tiling of the alphabet with some tiles left uncovered and a default declared iff needed, target distributions dominant/all-different/exactly-half/uniform; (perturbed) default missing or superfluous; (overlap) an extra label overlapping an existing one with equal/default/other target, incl. the D7 shape; (random) arbitrary ops; unreachable components, shuffled op order, overridden defaults, occasional mid-sequence build(). Each built automaton: structure, build_delta/build_final against the specification, next at all cut points +-1, edges, iterators, counts, short strings, combined partition, alphabet, compiled table (all cells), pruning (recursively observed). CompactTableBuilder scripts driven directly. A case counts as non-trivial unless it is accepts/str_next on the empty string".into();
+    t.rule = "builder call sequences over 1..5 keys with labels over 14 boundary cut points: (valid) per state a tiling of the alphabet with some tiles left uncovered and a default declared iff needed, target distributions dominant/all-different/exactly-half/uniform; (perturbed) default missing or superfluous; (overlap) an extra label overlapping an existing one with equal/default/other target, incl. the D7 shape; (random) arbitrary ops; unreachable components, shuffled op order, overridden defaults, occasional mid-sequence build() and build_unchecked() calls (pseudo-ops B, U). Each built automaton: structure, build_delta/build_final against the specification, next at all cut points +-1, edges, iterators, counts, short strings, combined partition, alphabet, compiled table (all cells), pruning (recursively observed). CompactTableBuilder scripts driven directly. A case counts as non-trivial unless it is accepts/str_next on the empty string".into();
 
     // ---- regression corpus: the two D7 witnesses (DESIGN.md §9), and neighbours ----
     let corpus: Vec<(u32, Vec<Op>)> = vec![
@@ -603,6 +618,11 @@ pub fn run(t: &mut Trace, rng: &mut Rng, thorough: bool) {
                  Op::D(0, 4), Op::D(1, 4), Op::D(2, 4), Op::D(3, 4), Op::D(4, 4), Op::F(3)]),
         // build() twice: the first call promotes a default inside the builder
         (0, vec![Op::T(0, 0, MAX_CHAR, 1), Op::D(1, 1), Op::B, Op::T(0, 97, 97, 2), Op::D(2, 2)]),
+        // build_unchecked() in the middle must not alter the builder either
+        (0, vec![Op::T(0, 97, 97, 1), Op::T(0, 98, 98, 1), Op::D(1, 1), Op::F(1), Op::U]),
+        (0, vec![Op::T(0, 0, MAX_CHAR, 1), Op::D(1, 1), Op::U, Op::T(0, 97, 97, 2), Op::D(2, 2)]),
+        (0, vec![Op::T(0, 97, 99, 1), Op::T(0, 98, 98, 0), Op::D(0, 1), Op::D(1, 1), Op::U]),
+        (0, vec![Op::T(0, 0, 9, 1), Op::T(0, 10, MAX_CHAR, 1), Op::D(1, 1), Op::U, Op::T(0, 5, 5, 1)]),
         // a single state, nothing else
         (4, vec![]),
         (4, vec![Op::D(4, 4), Op::F(4)]),
